@@ -269,6 +269,43 @@ def ob_instances(ctx):
     return True
 
 
+def ob_entry_point(ctx):
+    """the kit-level entry point Cls.characterize(record) on a concrete type answers the same whether the type is asked
+    first thing or after it has validated other records (two identical types declared in this very call, one per history)"""
+    st = ctx.stack
+    P = ctx.P
+    n = P["n"]
+    base = st.modules.Entry if P["role"] == "module" else st.vectors.EntryVector
+
+    def declare(nm):
+        return type(str(nm), (st.parts.AbstractPart, base), {"cutter": st.enzyme(P["enzyme"]), "signature": tuple(P["sig"])})
+
+    A, B = declare("AskedFirst"), declare("UsedBefore")
+    ctx.keep = [A, B]
+    junk = st.record.CircularRecord(st.Seq("ACGT" * 6), id="junk")
+    good = st.record.CircularRecord(st.Seq(concrete_instance(generic_class(st, P["role"], P["enzyme"]).structure(), n)), id="good")
+    B(junk).is_valid()
+    B(good).is_valid()
+    r = ctx.mk.seq("r", n, "ACGT")
+    rec = st.record.CircularRecord(st.Seq(r), id="rec")
+    outs = []
+    for K in (A, B):
+        try:
+            outs.append(K.characterize(rec))
+        except RuntimeError:
+            outs.append(None)
+    a, b = outs
+    ctx.observe("typed", [a is not None, b is not None])
+    ctx.require((a is None) == (b is None), "characterize-verdict-depends-on-earlier-use-of-the-type")
+    ctx.witness("typed" if a is not None else "untyped")
+    if a is not None:
+        ctx.require(seq_eq(a.overhang_start(), b.overhang_start()) and True, "overhang-depends-on-earlier-use")
+        ctx.require(seq_eq(a.target_sequence().seq, b.target_sequence().seq), "target-depends-on-earlier-use")
+        # and it agrees with plain validation by a third, unused twin
+        ctx.require(declare("Plain")(rec).is_valid() is True, "characterize-accepts-what-validation-rejects")
+    return True
+
+
 def obligations(tier, seed):
     from symx import loader
 
@@ -295,6 +332,11 @@ def obligations(tier, seed):
             obs.append(Ob("instances %s.%s n=%d typed %s first" % (kit, name, F + 1, first), ob_instances,
                           dict(kit=kit, cls=name, n=F + 1, first=first), samples=4, cost=3 * (F + 1) ** 3, group="instances",
                           expect_witness=("accepted-circular",)))
+    for role, sig in tier_pick(tier, [("module", ("AATG", "NNNN"))], [("module", ("AATG", "NNNN")), ("vector", ("NNNN", "GCTT"))]):
+        F = fixed_letters(generic_class(st, role, "BsaI").structure())
+        obs.append(Ob("entry point characterize on a concrete %s type, asked first vs after other validations n=%d" % (role, F + 1),
+                      ob_entry_point, dict(role=role, enzyme="BsaI", sig=list(sig), n=F + 1), samples=4, cost=2 * (F + 1) ** 3,
+                      group="entry-point", expect_witness=("typed", "untyped")))
     ps = pairs(st)
     if tier == "quick":
         seen, pick = set(), []
